@@ -44,7 +44,7 @@ def energy_record(x, dt, tts, nodal, ru, rd, stt, trim, start, scalar_tt=False, 
     rul = [float(v) for v in (ru if hasattr(ru, "__len__") else [ru] * k)]
     rdl = [float(v) for v in (rd if hasattr(rd, "__len__") else [rd] * k)]
     return {"kind": "energy", "dt": enc(dt), "a": enc_seq(x), "tts": enc_seq(tts), "nodal": bool(nodal), "ru": enc_seq(rul), "rd": enc_seq(rdl),
-            "trim": bool(trim), "start": bool(start), "out": [enc_seq(r) for r in rows(out)], "cum": [enc_seq(r) for r in rows(cum)], "mot": [enc_seq(r) for r in rows(mot)]}
+            "trim": bool(trim), "start": bool(start), "stt": enc(float(stt)), "out": [enc_seq(r) for r in rows(out)], "cum": [enc_seq(r) for r in rows(cum)], "mot": [enc_seq(r) for r in rows(mot)]}
 
 
 def build_traces(path, tier, seed):
